@@ -265,7 +265,7 @@ pub fn registry() -> Vec<Profile> {
             real: REAL_COMMON,
             stubs: STUBS_COMMON,
             assumptions: ASSUME_COMMON,
-            sweep: None,
+            sweep: Some(crate::sweeps::sweep_c01),
         },
         Profile {
             id: "C02",
@@ -291,7 +291,7 @@ pub fn registry() -> Vec<Profile> {
             real: REAL_COMMON,
             stubs: STUBS_COMMON,
             assumptions: ASSUME_COMMON,
-            sweep: None,
+            sweep: Some(crate::sweeps::sweep_c03),
         },
         Profile {
             id: "C04",
@@ -317,7 +317,7 @@ pub fn registry() -> Vec<Profile> {
             real: REAL_COMMON,
             stubs: STUBS_COMMON,
             assumptions: ASSUME_COMMON,
-            sweep: None,
+            sweep: Some(crate::sweeps::sweep_c05),
         },
         Profile {
             id: "C11",
@@ -343,7 +343,7 @@ pub fn registry() -> Vec<Profile> {
             real: REAL_COMMON,
             stubs: STUBS_COMMON,
             assumptions: ASSUME_COMMON,
-            sweep: None,
+            sweep: Some(crate::sweeps::sweep_c12),
         },
         Profile {
             id: "C14",
@@ -356,7 +356,7 @@ pub fn registry() -> Vec<Profile> {
             real: REAL_COMMON,
             stubs: STUBS_COMMON,
             assumptions: ASSUME_COMMON,
-            sweep: None,
+            sweep: Some(crate::sweeps::sweep_c14),
         },
         Profile {
             id: "C15",
